@@ -6,6 +6,15 @@ d=$(mktemp -d)
 printf '{"Replace":{"%s/x/liquidity/keeper/zz_verif_c04_bounded_test.go":"/verif/bounded/c04/farm_queue_test.go"}}' $repo > $d/ov.json
 cd $repo && VERIF_TIER=$1 VERIF_BOUNDED_OUT=$2 go test -overlay $d/ov.json -vet=off -count=1 -timeout 900s -run 'TestKeeperTestSuite' ./x/liquidity/keeper/ -testify.m 'TestVerifC04FarmQueueBooks' > $d/log 2>&1
 rc=$?
+printf '{"Replace":{"%s/x/liquidity/keeper/zz_verif_c04b_bounded_test.go":"/verif/bounded/c04/escrow_across_apps_test.go"}}' $repo > $d/ov2.json
+VERIF_TIER=$1 VERIF_BOUNDED_OUT=${2%.json}.b.json go test -overlay $d/ov2.json -vet=off -count=1 -timeout 900s -run 'TestKeeperTestSuite' ./x/liquidity/keeper/ -testify.m 'TestVerifC04EscrowAcrossApps' > $d/log2 2>&1
+rc2=$?
+if [ -f ${2%.json}.b.json ] && [ -f $2 ]; then python3 -c "
+import json
+a=json.load(open('$2')); a['second_function_group']=json.load(open('${2%.json}.b.json')); json.dump(a,open('$2','w'))"; fi
+rm -f ${2%.json}.b.json
+grep -v '^I\[' $d/log2 >> $d/log
+[ $rc -eq 0 ] && rc=$rc2
 grep -v "^I\[" $d/log | tail -25 > ${2%.json}.log
 rm -rf $d
 exit $rc
